@@ -382,6 +382,8 @@ class Emitter:
         self.externals = externals or {}
         self.extern_funcs = extern_funcs or {}   # qualified C++ name -> C function name (declared in rt header)
         self.opaque = opaque or {}  # normalised record type -> C type text
+        self.opaque_patterns = []   # (regex on the type key, C type text)
+        self.extern_patterns = []   # (regex on "qualified name(param types)", C function name)
         self.type_map = type_map or {}
         self.may_throw = {}
         self.calls = {}            # cname -> set of callee cnames
@@ -455,6 +457,11 @@ class Emitter:
         if qt in BUILTIN:
             return BUILTIN[qt], ptr, arr
         n = tkey(qt)
+        if n not in self.opaque:
+            for pat, ctext in self.opaque_patterns:
+                if re.search(pat, n):
+                    self.opaque[n] = ctext
+                    break
         if n not in self.opaque and n not in self.ast.records and strip_ns(norm_type(qt)) in self.ast.records:
             n = strip_ns(norm_type(qt))
         if n in self.opaque:
@@ -473,8 +480,20 @@ class Emitter:
             return "%s %s%s%s" % (b, p, name, a)
         return "%s %s%s%s" % (b, p, name, a)
 
+    def is_opaque(self, qt):
+        n = tkey(self.strip_cv(self.resolve_typedef(self.strip_cv(self.unref(qt)))))
+        if n in self.opaque:
+            return True
+        for pat, ctext in self.opaque_patterns:
+            if re.search(pat, n):
+                self.opaque[n] = ctext
+                return True
+        return False
+
     def is_record(self, qt):
         n = tkey(self.strip_cv(self.resolve_typedef(self.strip_cv(self.unref(qt)))))
+        if n not in self.opaque:
+            self.is_opaque(qt)
         return (n in self.ast.records and n not in self.opaque) or n in self.opaque
 
     def need_struct(self, n):
@@ -1172,6 +1191,9 @@ class FuncEmitter:
 
     def derived_to_base_lv(self, e, sub):
         depth = len(e.get("path", []) or [1])
+        st = sub.get("type", {}).get("desugaredQualType") or sub.get("type", {}).get("qualType", "")
+        if self.em.is_opaque(st):
+            return self.lv(sub)
         s = self.lv(sub)
         for _ in range(max(1, depth)):
             s = "%s._base" % s
@@ -1279,6 +1301,12 @@ class FuncEmitter:
         name = node.get("name", "")
         if q in self.em.extern_funcs:
             return self.em.extern_funcs[q]
+        if self.em.extern_patterns and node.get("type"):
+            ps = [strip_ns(norm_type(p["type"]["qualType"])) for p in self.ast.func_params(node)]
+            sig = "%s(%s)" % (q, ", ".join(ps))
+            for pat, cn in self.em.extern_patterns:
+                if re.search(pat, sig):
+                    return cn
         if canon in self.ast.funcs and not self.is_std_math_wrapper(q, node):
             cn = self.em.request(canon)
             self.callees.add(cn)
@@ -1621,6 +1649,9 @@ class FuncEmitter:
         if ck in ("DerivedToBase", "UncheckedDerivedToBase"):
             if self.em.strip_cv(qt).endswith("*"):
                 depth = len(e.get("path", []) or [1])
+                st = sub.get("type", {}).get("desugaredQualType") or sub.get("type", {}).get("qualType", "")
+                if self.em.is_opaque(st.rstrip(" *")):
+                    return "((void *)%s)" % self.rv(sub)
                 s = self.rv(sub)
                 for _ in range(depth):
                     s = "(&(%s)->_base)" % s
@@ -1663,10 +1694,12 @@ def clang_ast(driver, includes, defines=(), std="c++17", cache_dir=None, extra=(
 
 
 def extract(driver, wanted, includes, defines=(), std="c++17", externals=None, opaque=None, type_map=None,
-            extern_funcs=None, header_comment=""):
+            extern_funcs=None, header_comment="", opaque_patterns=None, extern_patterns=None):
     root, _ = clang_ast(driver, includes, defines, std)
     ast = AST(root)
     em = Emitter(ast, externals=externals, opaque=opaque, type_map=type_map, extern_funcs=extern_funcs)
+    em.opaque_patterns = list(opaque_patterns or [])
+    em.extern_patterns = list(extern_patterns or [])
     names = {}
     for w in wanted:
         # "a || b": alternatives (e.g. a parameter taken by value or by const reference); the result is
